@@ -283,8 +283,8 @@ def shrink_schedule(case):
                 yield c
 
 
-TIERS = {"quick": {"runs": 160, "wall_cap": 480, "opts": {"gen": {"nvariants": 3}}},
-         "thorough": {"runs": 6000, "wall_cap": 3300,
+TIERS = {"quick": {"runs": 240, "wall_cap": 480, "opts": {"gen": {"nvariants": 3}}},
+         "thorough": {"runs": 8000, "wall_cap": 3300,
                       "opts": {"gen": {"nvariants": 5, "hashseeds": HASHSEEDS_THOROUGH}}}}
 RULE = ("one run = one generated multi-directory world (2..5 platforms, engineered byte-identical copies forming duplicate "
         "classes, unused files, nested directories) executed under a baseline schedule (hash seed 0, entries enumerated by "
